@@ -230,8 +230,8 @@ func newEnv(t *testing.T) *env {
 	ctx := context.Background()
 	dir := t.TempDir()
 	cfg := types.Config{
-		LockTimeout:    3 * time.Second,
-		GlobalTimeout:  10 * time.Second,
+		LockTimeout:    30 * time.Second, // no case relies on a lock timing out (failures are injected)
+		GlobalTimeout:  60 * time.Second,
 		MaxConcurrency: 1000,
 		WALFile:        filepath.Join(dir, "wal"),
 		Etcd:           types.EtcdConfig{Prefix: "/eru", LockPrefix: "__lock__/eru"},
@@ -271,7 +271,14 @@ func (e *env) use(backend string) store.Store {
 
 func (e *env) wipe() {
 	ctx := context.Background()
-	if _, err := e.etcd.Delete(ctx, "/", clientv3.WithPrefix()); err != nil {
+	var err error
+	for i := 0; i < 6; i++ { // an overloaded machine makes the embedded etcd time out now and then
+		if _, err = e.etcd.Delete(ctx, "/", clientv3.WithPrefix()); err == nil {
+			break
+		}
+		time.Sleep(time.Duration(i+1) * time.Second)
+	}
+	if err != nil {
 		e.t.Fatal(err)
 	}
 	e.mini.FlushAll()
@@ -343,8 +350,16 @@ func (e *env) run(k *kase) {
 	}
 	e.wipe()
 	s := e.use(k.Backend)
-	if err := e.populate(s, k); err != nil {
-		k.Impl = map[string]any{"setup": err.Error()}
+	var serr error
+	for i := 0; i < 4; i++ {
+		if serr = e.populate(s, k); serr == nil {
+			break
+		}
+		time.Sleep(time.Duration(i+1) * time.Second)
+		e.wipe()
+	}
+	if serr != nil {
+		k.Impl = map[string]any{"setup": serr.Error()}
 		return
 	}
 	e.rec.reset()
@@ -368,7 +383,7 @@ func (e *env) run(k *kase) {
 		}
 		return
 	}
-	kind, msg := hx.Guard(30*time.Second, func() { e.drive(ctx, k) })
+	kind, msg := hx.Guard(120*time.Second, func() { e.drive(ctx, k) })
 	e.rec.quiesce()
 	k.Impl = map[string]any{"episodes": e.rec.episodes()}
 	if kind != "" {
